@@ -13,7 +13,8 @@
 (***************************************************************************)
 EXTENDS Downsample, TLC, Json, IOUtils, SequencesExt
 
-CONSTANTS GridLen, MaxSamples, Vecs, WithStale, R1, Mults, Counts1, Counts2
+CONSTANTS GridLen, MaxSamples, Vecs, WithStale, R1, Mults, Counts1, Counts2,
+          CaseSamples     \* leg B: series with at most that many samples go to the harness
 
 VARIABLES tset, raw, m, nc1, nc2, pc, p, c1, rest, c2
 vars == <<tset, raw, m, nc1, nc2, pc, p, c1, rest, c2>>
@@ -96,6 +97,6 @@ AlwaysProgress == [][Progress]_vars
 CasesFile == IF "VERIF_CASES" \in DOMAIN IOEnv THEN IOEnv.VERIF_CASES ELSE "cases.ndjson"
 RawSeries(maxn) == UNION { SeriesOn(T, g) : T \in TimeSets(maxn), g \in BOOLEAN }
 CaseSeq == SetToSeq({ [ts |-> s.ts, hv |-> s.hv, ks |-> s.ks, gauge |-> s.gauge, r |-> R1, m |-> mm, nc1 |-> a, nc2 |-> b]
-                        : s \in RawSeries(MaxSamples), mm \in Mults, a \in Counts1, b \in Counts2 })
+                        : s \in RawSeries(CaseSamples), mm \in Mults, a \in Counts1, b \in Counts2 })
 ASSUME ndJsonSerialize(CasesFile, CaseSeq)
 =============================================================================
